@@ -27,6 +27,8 @@ type Person struct {
 	Tag   NamedStr
 	Nick  string `sql:",implicitnull"`
 	Blob  []byte
+	// a column whose name is what joining the names "city" and "id" with an underscore gives
+	CityId int64 `sql:"city_id"`
 }
 
 // Other is a second table sharing the batching context (shards must not mix).
@@ -82,6 +84,8 @@ func filters() []qspec {
 		{name: "blob=b", f: sqlgen.Filter{"blob": []byte("b")}},
 		{name: "city=sf,nick=empty", f: sqlgen.Filter{"city": "sf", "nick": ""}},
 		{name: "row:nick=empty", f: sqlgen.Filter{"nick": ""}, row: true},
+		{name: "city_id=7", f: sqlgen.Filter{"city_id": int64(7)}},
+		{name: "city=sf,id=1", f: sqlgen.Filter{"city": "sf", "id": int64(1)}},
 		{name: "others:city=sf", table: "others", f: sqlgen.Filter{"city": "sf"}},
 		{name: "others:id=int(1)", table: "others", f: sqlgen.Filter{"id": 1}},
 	}
@@ -95,13 +99,13 @@ func filters() []qspec {
 
 var contents = [][][]driver.Value{
 	{ // duplicates, NULLs
-		{int64(1), int64(30), "sf", int64(5), "x", "n", []byte("b")},
-		{int64(2), int64(30), "sf", int64(5), "y", nil, nil},
-		{int64(3), nil, "sf", int64(0), "x", nil, []byte("b")},
-		{int64(4), int64(41), "la", int64(5), "", "m", nil},
+		{int64(1), int64(30), "sf", int64(5), "x", "n", []byte("b"), int64(7)},
+		{int64(2), int64(30), "sf", int64(5), "y", nil, nil, int64(7)},
+		{int64(3), nil, "sf", int64(0), "x", nil, []byte("b"), int64(8)},
+		{int64(4), int64(41), "la", int64(5), "", "m", nil, int64(1)},
 	},
 	{ // single row
-		{int64(1), nil, "la", int64(5), "x", nil, nil},
+		{int64(1), nil, "la", int64(5), "x", nil, nil, int64(7)},
 	},
 	{}, // empty table
 }
